@@ -1,9 +1,13 @@
 """C16 correlograms and peri-event alignment report true lags to the reference events."""
 import itertools
+import os
 import random
+import shutil
+import tempfile
 import warnings
 
 import numpy as np
+import pandas as pd
 
 import common as C
 import gen as G
@@ -26,7 +30,11 @@ ASSUMPTIONS = ["exhaustive cases live on the dyadic lattice 2^-9 s (bins multipl
                "'nearest' ties (event exactly midway between two samples) may go to either sample for the statement, the model fixes the later one",
                "the model of compute_perievent_continuous copies `time_array[1] - time_array[0]`: it is compared with the implementation whenever that first step is positive, and with the statement only when the first step "
                "IS the sampling step (theorem C16_continuous_public_step; outside, C16_continuous_first_step_refuted)",
-               "the nearest-sample theorem needs non-decreasing sample times and event times (what Ts/Tsd guarantee)"]
+               "the nearest-sample theorem needs non-decreasing sample times and event times (what Ts/Tsd guarantee)",
+               "argument forms (section 6): every form holds the SAME instants / durations exactly (a np.float32 tuple is generated only when the float32 unit conversion and rounding are exact); forms outside the documented signatures "
+               "(0-d arrays, list / ndarray minmax, upper-case units) must raise TypeError / ValueError / RuntimeError or satisfy the statement; the model is compared on the canonical forms only (it takes ticks: all forms of an instant are one model input); "
+               "a saved TsGroup stores every member as float64 data (documented npz format): after save + load the lags are judged, not the values; "
+               "a failing case whose minmax is a tuple of numpy unsigned integers / np.float16 is re-run with the plain float tuple: the precise key (one boolean per trigger) is used only when that run satisfies the statement"]
 
 U = 1953125          # 2^-9 s in ticks
 V = 8 * U            # 2^-6 s = 15625 us: dyadic AND a whole number of microseconds
@@ -916,6 +924,913 @@ def run_continuous_kernel(res, tier, rng, PF):
             res.disagreements.append({"op": "pc_columns(model) vs pc_spec(model)", "input": inp, "model": mc, "spec": ms})
 
 
+# ----------------------------------------------------------------------------------------------
+# 6. ARGUMENT FORMS. The same instants, durations and values handed over in every form the public signatures accept (dtype of the
+#    data, form of time arguments and scalars, positional / keyword / default parameters, units, time placement, degenerate receivers,
+#    every accepted class, multi-step histories). Each case is a JSON-able `spec` (ticks, canonical values, names of forms) executed by
+#    fa_exec / fb_exec / fc_exec, so that a replay file holds the complete failing input. The oracles are the ones above (o_hist, o_auto,
+#    o_centres, check_frame, o_perievent, cont_verdict): no tolerance, every case lives on a lattice where float64 is exact
+#    (dyadic 2^-9 s, or whole seconds for the integer forms; offsets -20 steps .. 1e5 s are multiples of the lattice step).
+#    The extracted model is compared on the canonical forms (sections 1-5); the forms below are judged by the statement oracle alone
+#    (the model takes ticks: every form of one instant is the same model input).
+SEC = 10 ** 9
+BIG_OFF = 10 ** 14          # 1e5 s = 51200000 * U
+CLEAN = (TypeError, ValueError, RuntimeError)
+WIDE = (-10 ** 6, 10 ** 6)  # seconds
+INT_TFORMS = ("int64", "int32", "int16", "uint8", "uint16", "uint32", "uint64", "pylist_int", "int_units_ms")
+DTYPE_OF = {"float64": np.float64, "fractions": np.float64, "nan_inf": np.float64, "zeros": np.float64, "all_equal": np.float64, "list": np.float64,
+            "float32": np.float32, "int64": np.int64, "bigint": np.int64, "int32": np.int32, "int16": np.int16, "int8": np.int8,
+            "uint8": np.uint8, "uint16": np.uint16, "uint64": np.uint64, "biguint": np.uint64, "bool": np.bool_}
+SMALL_DFORMS = ("int8", "uint8", "bool")          # data planes base + 1000*q do not fit: Tsd only
+PE_DFORMS = ("float64", "fractions", "nan_inf", "zeros", "all_equal", "list", "float32", "int64", "bigint", "int32", "int16", "int8", "uint8", "uint16", "uint64", "biguint", "bool")
+PC_DFORMS = ("float64", "fractions", "nan_inf", "zeros", "all_equal", "list", "float32", "int64", "int32", "int16", "int8", "uint8", "uint16", "uint64", "bool")
+
+
+def tforms_for(ticks):
+    """the time-argument forms in which the instants `ticks` can be written exactly"""
+    out = ["ndarray", "list", "tuple", "series", "pd_index", "tsindex", "x.t", "units_ms", "units_us"]
+    a = G.arr(ticks)
+    if len(ticks) and np.array_equal(a.astype(np.float32).astype(np.float64), a):
+        out.append("float32")
+    if all(t % SEC == 0 for t in ticks):
+        secs = [t // SEC for t in ticks]
+        lo, hi = (min(secs), max(secs)) if secs else (0, 0)
+        out += ["int64", "pylist_int", "int_units_ms"]
+        if -2 ** 31 <= lo and hi < 2 ** 31:
+            out.append("int32")
+        if -2 ** 15 <= lo and hi < 2 ** 15:
+            out.append("int16")
+        if lo >= 0:
+            out.append("uint64")
+            out += [f for f, bits in (("uint32", 32), ("uint16", 16), ("uint8", 8)) if hi < 2 ** bits]
+    return out
+
+
+def pick_tform(rng, ticks):
+    fs = tforms_for(ticks)
+    ints = [f for f in fs if f in INT_TFORMS]
+    return rng.choice(ints) if ints and rng.random() < 0.6 else rng.choice(fs)
+
+
+def time_arg(nap, ticks, form):
+    """(t, time_units): the instants `ticks` written in the argument form `form`"""
+    a = G.arr(ticks)
+    if form == "ndarray":
+        return a, "s"
+    if form == "list":
+        return [float(v) for v in a], "s"
+    if form == "tuple":
+        return tuple(float(v) for v in a), "s"
+    if form == "series":
+        return pd.Series(a, dtype=np.float64), "s"
+    if form == "pd_index":
+        return pd.Index(a, dtype=np.float64), "s"
+    if form == "tsindex":        # another object's TsIndex
+        return nap.Ts(a, time_support=nap.IntervalSet(*WIDE)).index, "s"
+    if form == "x.t":            # another object's time array (shared memory)
+        return nap.Tsd(a, np.zeros(len(a)), time_support=nap.IntervalSet(*WIDE)).t, "s"
+    if form == "float32":
+        return a.astype(np.float32), "s"
+    if form == "units_ms":
+        return np.asarray(ticks, dtype=np.float64) / 1e6, "ms"
+    if form == "units_us":
+        return np.asarray(ticks, dtype=np.float64) / 1e3, "us"
+    if form == "pylist_int":
+        return [int(t // SEC) for t in ticks], "s"
+    if form == "int_units_ms":
+        return np.asarray([t // 10 ** 6 for t in ticks], dtype=np.int64), "ms"
+    return np.asarray([t // SEC for t in ticks], dtype=np.dtype(form)), "s"
+
+
+def gen_vals(rng, n, dform):
+    """canonical values (JSON-able): ints, floats, 'nan' / 'inf' / '-inf'"""
+    if dform == "fractions":
+        return [i + 0.5 for i in range(n)]
+    if dform == "nan_inf":
+        return [rng.choice(["nan", "nan", "inf", "-inf"]) if rng.random() < 0.55 else i + 0.5 for i in range(n)]
+    if dform == "zeros":
+        return [0] * n
+    if dform == "all_equal":
+        return [7] * n
+    if dform == "bigint":
+        return [(2 ** 53 + 1 + i) * (-1 if i % 3 == 2 else 1) for i in range(n)]      # not representable in float64
+    if dform == "biguint":
+        return [2 ** 63 + 1 + i for i in range(n)]                                     # beyond int64
+    if dform == "bool":
+        return [int(i % 2 == 0) for i in range(n)]
+    return [3 + i for i in range(n)]
+
+
+def data_arr(vals, dform):
+    f = [float(v) if isinstance(v, str) else v for v in vals]
+    if dform == "list":
+        return [float(v) for v in f]
+    return np.asarray(f, dtype=DTYPE_OF[dform])
+
+
+def cv(v, nan=None):
+    """canonical form of one value of a result"""
+    if isinstance(v, (bool, np.bool_, int, np.integer)):
+        return int(v)
+    f = float(v)
+    if f != f:
+        return nan
+    if f in (float("inf"), float("-inf")):
+        return repr(f)
+    return int(f) if f == int(f) else f
+
+
+def cvals(vals, nan=None):
+    return [nan if v == "nan" else v for v in vals]
+
+
+def mk_series(nap, cls, ticks, tform, vals=None, dform="float64", sup=None, cols=None):
+    """a Ts / Tsd / TsdFrame / TsdTensor holding the instants `ticks` (and the canonical values) written in the given forms; frames and
+    tensors hold the planes base + 1000*q"""
+    t, un = time_arg(nap, ticks, tform)
+    kw = {"time_units": un}
+    if sup is not None:
+        kw["time_support"] = sup
+    if cls == "Ts":
+        return nap.Ts(t, **kw)
+    d = data_arr(vals if vals is not None else [0] * len(ticks), dform)
+    if cls == "Tsd":
+        if tform == "series":        # for the Tsd constructor a pandas Series IS the series: values + time index
+            return nap.Tsd(pd.Series(np.asarray(d), index=G.arr(ticks)), **{k: v for k, v in kw.items() if k != "time_units"})
+        return nap.Tsd(t, d, **kw)
+    base = np.asarray(d)
+    if cls == "TsdFrame":
+        dd = np.stack([base, base + 1000], axis=1).reshape(len(ticks), 2)
+        if tform == "series":        # likewise a DataFrame
+            return nap.TsdFrame(pd.DataFrame(dd, index=G.arr(ticks), columns=cols), **{k: v for k, v in kw.items() if k != "time_units"})
+        return nap.TsdFrame(t, dd, columns=cols, **kw)
+    dd = np.stack([base + 1000 * q for q in range(4)], axis=1).reshape(len(ticks), 2, 2)
+    return nap.TsdTensor(t, dd, **kw)
+
+
+def sforms_for(q, uf):
+    """the scalar forms that hold the duration q (ticks) exactly in the unit uf"""
+    x = q / uf
+    out = ["float", "np.float64"]
+    if float(np.float32(x)) == x:
+        out.append("np.float32")
+    if x == int(x):
+        out += ["int", "np.int64"]
+        if x < 2 ** 31:
+            out.append("np.int32")
+        if 0 <= x < 2 ** 16:
+            out.append("np.uint16")
+    return out
+
+
+def pick_sform(rng, q, uf):
+    fs = sforms_for(q, uf)
+    return rng.choice(fs[2:]) if len(fs) > 2 and rng.random() < 0.6 else rng.choice(fs)
+
+
+def scalar_arg(q, uf, form):
+    x = q / uf
+    if form == "0d":
+        return np.array(x)
+    if form == "float":
+        return float(x)
+    if form == "int":
+        return int(x)
+    if form in ("np.float64", "np.float32", "np.float16"):
+        return getattr(np, form[3:])(x)
+    return getattr(np, form[3:])(int(x))
+
+
+def f32_window_exact(w0, w1, uf):
+    """a tuple of np.float32 stays a float32 array through the unit conversion and the rounding to 1e-9 s: the form holds the
+    two durations exactly only when that float32 arithmetic is exact (a fact about float32, not about the library)"""
+    x = np.array([w0 / uf, w1 / uf], dtype=np.float32)
+    if not np.array_equal(x.astype(np.float64), np.array([w0 / uf, w1 / uf])):
+        return False
+    y = x if uf == 1e9 else x / np.float32(1e9 / uf)
+    return np.array_equal(np.around(y, 9).astype(np.float64), np.array([w0 / 1e9, w1 / 1e9]))
+
+
+UNSIGNED_MM = ("tuple_np.uint8", "tuple_np.uint64")
+INVALID_MM = ("list", "ndarray", "0d")      # not in the documented signature (tuple or number): a clean exception or the statement
+
+
+def mmforms_for(w0, w1, uf):
+    x0, x1 = w0 / uf, w1 / uf
+    integral = x0 == int(x0) and x1 == int(x1)
+    out = ["tuple", "neg_tuple", "tuple_np.float64", "list", "ndarray"]
+    if w0 == w1:
+        out += ["scalar", "scalar_np.float64", "0d"]
+        if float(np.float32(x0)) == x0:
+            out.append("scalar_np.float32")
+        if integral:
+            out += ["scalar_int", "scalar_np.int64", "scalar_np.uint8"] if x0 < 256 else ["scalar_int", "scalar_np.int64"]
+    if f32_window_exact(w0, w1, uf):
+        out.append("tuple_np.float32")
+    if integral:
+        out += ["tuple_int", "neg_tuple_int", "tuple_np.int64", "mixed_int_float", "tuple_np.uint64"]
+        if x0 < 2 ** 31 and x1 < 2 ** 31:
+            out.append("tuple_np.int32")
+        if x0 < 256 and x1 < 256:
+            out.append("tuple_np.uint8")
+    if all(float(np.float16(v)) == v for v in (x0, x1)):
+        out.append("tuple_np.float16")
+    return out
+
+
+def pick_mmform(rng, w0, w1, uf):
+    fs = mmforms_for(w0, w1, uf)
+    r = rng.random()
+    if r < 0.25:
+        return rng.choice(fs[:2])
+    rare = [f for f in fs if f in INVALID_MM]
+    if r < 0.32 and rare:
+        return rng.choice(rare)
+    return rng.choice([f for f in fs if f not in INVALID_MM])
+
+
+def mm_arg(w0, w1, uf, form):
+    x0, x1 = w0 / uf, w1 / uf
+    if form == "tuple":
+        return (float(x0), float(x1))
+    if form == "neg_tuple":
+        return (-float(x0), float(x1))
+    if form == "scalar":
+        return float(x0)
+    if form == "scalar_int":
+        return int(x0)
+    if form.startswith("scalar_np."):
+        ty = getattr(np, form[10:])
+        return ty(x0) if "float" in form else ty(int(x0))
+    if form == "tuple_int":
+        return (int(x0), int(x1))
+    if form == "neg_tuple_int":
+        return (-int(x0), int(x1))
+    if form == "mixed_int_float":
+        return (int(x0), float(x1))
+    if form.startswith("tuple_np."):
+        ty = getattr(np, form[9:])
+        return (ty(x0), ty(x1)) if "float" in form else (ty(int(x0)), ty(int(x1)))
+    if form == "list":
+        return [float(x0), float(x1)]
+    if form == "ndarray":
+        return np.array([x0, x1])
+    if form == "0d":
+        return np.array(x0)
+    raise KeyError(form)
+
+
+def ep_arg(nap, ep, form):
+    """the interval set `ep` (ticks) written in the argument form `form`"""
+    s, e = [a for a, _ in ep], [b for _, b in ep]
+    if form == "metadata":
+        return nap.IntervalSet(G.arr(s), G.arr(e), metadata={"label": ["e%d" % i for i in range(len(ep))], "w": list(range(len(ep)))})
+    if form == "lists":
+        return nap.IntervalSet(start=[float(v) for v in G.arr(s)], end=[float(v) for v in G.arr(e)])
+    if form in ("int_arrays", "uint_arrays"):
+        dt = np.int64 if form == "int_arrays" else np.uint64
+        return nap.IntervalSet(np.asarray([v // SEC for v in s], dtype=dt), np.asarray([v // SEC for v in e], dtype=dt))
+    if form == "units_ms":
+        return nap.IntervalSet(np.asarray(s, dtype=np.float64) / 1e6, np.asarray(e, dtype=np.float64) / 1e6, time_units="ms")
+    if form == "dataframe":
+        return nap.IntervalSet(pd.DataFrame({"start": G.arr(s), "end": G.arr(e)}))
+    return mk_ep(nap, ep)
+
+
+def epforms_for(ep):
+    out = ["plain", "plain", "metadata", "lists", "units_ms", "dataframe"]
+    if all(v % SEC == 0 for iv in ep for v in iv):
+        out += ["int_arrays", "int_arrays"] + (["uint_arrays", "uint_arrays"] if ep[0][0] >= 0 else [])
+    return out
+
+
+def save_load(nap, obj):
+    d = tempfile.mkdtemp(prefix="c16_")
+    try:
+        p = os.path.join(d, "obj.npz")
+        obj.save(p)
+        return nap.load_file(p)
+    finally:
+        shutil.rmtree(d, ignore_errors=True)
+
+
+def support_ticks(obj):
+    return [(C.to_ns(s), C.to_ns(e)) for s, e in obj.time_support.values]
+
+
+def keyrepr(k, keyform):
+    return {"str": str(k), "float": float(k), "npint": np.int64(k)}.get(keyform, k)
+
+
+# ------------------------------------------------------------------ family A: correlograms
+def fa_plan(tier, seed):
+    rng = random.Random(seed * 16 + 7)
+    plan = []
+    for c in range(220 if tier == "quick" else 1500):
+        lat = rng.choice(["dyadic", "dyadic", "seconds"])
+        if lat == "dyadic":
+            step, bws = 4 * U, [(V, V), (V, 2 * V), (2 * V, 2 * V), (V, 12 * U), (2 * V, V)]
+        else:
+            step, bws = SEC, [(SEC, SEC), (SEC, 2 * SEC), (2 * SEC, 2 * SEC), (2 * SEC, 3 * SEC), (SEC, 3 * SEC), (2 * SEC, SEC)]
+        off = rng.choice([0, 0, -3 * step, -20 * step, BIG_OFF])
+        pts = [off + i * step for i in range(8)]
+        sup = [(off - 16 * step, off + 16 * step)]
+        nmem = rng.choice([0, 1, 2, 3, 3, 3, 3])
+        keyform = rng.choice(["int", "unsorted", "str", "float", "npint", "list"])
+        keys = list(range(nmem)) if keyform == "list" else sorted(rng.sample([0, 2, 3, 5, 9, 10, 12, 21, 100], nmem))
+        members = []
+        for k in keys:
+            ticks = sorted(rng.choice(pts) for _ in range(rng.choice([0, 1, 2, 3, 3, 4])))
+            m = {"key": k, "ticks": ticks, "cls": rng.choice(["Ts", "Ts", "Tsd"]), "tform": pick_tform(rng, ticks)}
+            if m["cls"] == "Tsd":         # (the values of the members and of the event must not matter: NaN / infinite values above all)
+                m["dform"] = rng.choice(PE_DFORMS + ("nan_inf",) * 5)
+                m["vals"] = gen_vals(rng, len(ticks), m["dform"])
+            members.append(m)
+        support = rng.choice(["explicit", "explicit", "default", "bypass"])
+        if support == "default" and not any(len(set(m["ticks"])) >= 2 for m in members):
+            support = "explicit"
+        hist = rng.choice(["none"] * 4 + ["restrict", "getitem", "save_load", "twice", "set_info"])
+        if hist == "getitem" and nmem == 0:
+            hist = "none"
+        eps = [[(off + step, off + 5 * step)], [(off, off + 2 * step), (off + 4 * step, off + 7 * step)],
+               [(off, off + step), (off + 2 * step, off + 3 * step), (off + 5 * step, off + 7 * step)], [(off - 2 * step, off + 9 * step)]]
+        ep = rng.choice(eps) if rng.random() < 0.5 else None
+        epform = rng.choice(epforms_for(ep)) if ep else rng.choice(["omitted", "omitted", "none", "empty"])
+        if epform == "empty":
+            ep = []
+        ev = sorted(rng.choice(pts) for _ in range(rng.randint(1, 3)))
+        evmode = rng.choice(["explicit", "narrow", "default", "member"])
+        if (evmode == "default" and len(set(ev)) < 2) or (evmode == "member" and nmem == 0):
+            evmode = "explicit"
+        evcls = rng.choice(["Ts", "Tsd"])
+        b, w = rng.choice(bws)
+        un = rng.choice(["s", "ms", "us"])
+        call = rng.choice(["kw", "kw", "positional", "all_kw", "defaults"])
+        norm, reverse = rng.random() < 0.5, rng.random() < 0.5
+        if call == "defaults":
+            un, norm, reverse = "s", True, False
+        uf = dict(UNITS)[un]
+        spec = {"family": "A", "n": c, "lattice": lat, "step": step, "off": off, "sup": sup, "members": members, "keyform": keyform,
+                "support": support, "metadata": rng.random() < 0.3, "hist": hist, "ep": ep, "epform": epform,
+                "ep_h": rng.choice(eps[:3]), "sub": rng.sample(keys, max(1, nmem - 1)) if nmem else [],
+                "event": {"ticks": ev, "cls": evcls, "tform": pick_tform(rng, ev), "mode": evmode, "dform": rng.choice(PE_DFORMS + ("nan_inf",) * 8),
+                          "member": rng.choice(keys) if nmem else None, "narrow": [(off + step, off + 6 * step)]},
+                "binsize": b, "windowsize": w, "units": un, "sb": "0d" if rng.random() < 0.03 else pick_sform(rng, b, uf), "sw": "0d" if rng.random() < 0.02 else pick_sform(rng, w, uf),
+                "norm": norm, "reverse": reverse, "call": call, "pair": rng.choice(["tuple", "list", "same", "narrow2"]),
+                "sup2": [(off - step, off + 6 * step)], "units_upper": call != "defaults" and rng.random() < 0.04}
+        spec["event"]["vals"] = gen_vals(rng, len(ev), spec["event"]["dform"])
+        plan.append(spec)
+    return plan
+
+
+def fa_group(nap, spec, members, sup, keyform=None):
+    """TsGroup of the members (explicit support `sup` in ticks, or None = default) in the key / container / bypass forms of the spec"""
+    keyform = keyform or spec["keyform"]
+    supo = mk_ep(nap, sup) if sup is not None else None
+    objs = [(keyrepr(m["key"], keyform), mk_series(nap, m["cls"], m["ticks"], m["tform"], m.get("vals"), m.get("dform", "float64"), supo)) for m in members]
+    if keyform == "unsorted":
+        objs = objs[::-1]
+    data = [o for _, o in objs] if keyform == "list" else dict(objs)
+    kw = {}
+    if supo is not None:
+        kw["time_support"] = supo
+    if spec["support"] == "bypass" and supo is not None:
+        kw["bypass_check"] = True       # (the members were built on that support: already restricted)
+    if spec["metadata"] and members:
+        kw["metadata"] = {"lab": ["m%d" % i for i in range(len(members))]}
+    return nap.TsGroup(data, **kw)
+
+
+def fa_exec(nap, spec, res):
+    un, b, w, norm, reverse = spec["units"], spec["binsize"], spec["windowsize"], spec["norm"], spec["reverse"]
+    uf = dict(UNITS)[un]
+    sup = [tuple(x) for x in spec["sup"]]
+    members = spec["members"]
+    hist = spec["hist"]
+    key0 = {"family": "forms", "call": spec["call"], "units": un, "lattice": spec["lattice"], "hist": hist, "epform": spec["epform"], "keyform": spec["keyform"],
+            "support": spec["support"], "norm": norm}
+    inp = {"spec": spec, "binsize": b, "windowsize": w}
+    for nm, val in (("lattice", spec["lattice"]), ("offset", "0" if spec["off"] == 0 else ("1e5s" if spec["off"] == BIG_OFF else ("straddles_0" if spec["off"] > -10 * spec["step"] else "negative"))),
+                    ("keys", spec["keyform"]), ("group_support", spec["support"]), ("history", hist), ("ep", spec["epform"]), ("call", spec["call"]), ("units", un),
+                    ("binsize_as", spec["sb"]), ("windowsize_as", spec["sw"]), ("n_members", len(members)), ("event", spec["event"]["mode"] + "/" + spec["event"]["cls"]),
+                    ("event_times_as", spec["event"]["tform"]), ("norm", norm), ("group_metadata", spec["metadata"])):
+        res.count("formsA_%s=%s" % (nm, val))
+    for m in members:
+        res.count("formsA_member_times_as=" + m["tform"])
+        res.count("formsA_member=" + (m["cls"] + ("/" + m["dform"] if m["cls"] == "Tsd" else "")))
+        if not m["ticks"]:
+            res.count("formsA_empty_member")
+    grp = fa_group(nap, spec, members, None if spec["support"] == "default" else sup)
+    gsup = sup if spec["support"] != "default" else support_ticks(grp)
+    keys = [m["key"] for m in members]
+    gsup0 = gsup                # (the constructor restricted the members to it)
+    if hist == "restrict":
+        gsup = [tuple(x) for x in spec["ep_h"]]
+        grp = grp.restrict(mk_ep(nap, gsup))
+    elif hist == "getitem":
+        keys = sorted(spec["sub"])
+        grp = grp[list(spec["sub"])]
+    elif hist == "save_load":
+        grp = save_load(nap, grp)
+    elif hist == "set_info":
+        grp.set_info(extra=np.arange(len(members)))
+    trains = {m["key"]: restrict(restrict(m["ticks"], gsup0), gsup) for m in members if m["key"] in keys}
+    ep = None if spec["epform"] in ("omitted", "none") else [tuple(x) for x in spec["ep"]]
+    epo = None if ep is None else (nap.IntervalSet([], []) if spec["epform"] == "empty" else ep_arg(nap, ep, spec["epform"]))
+    ep_given = spec["epform"] != "omitted"
+    invalid = "0d" in (spec["sb"], spec["sw"]) or spec["units_upper"]     # outside the documented signature: a clean exception or the statement
+    una = un.upper() if spec["units_upper"] else un
+    if spec["units_upper"]:
+        res.count("formsA_units_in_upper_case")
+    cen = o_centres(b, w)
+    bsec = b / 1e9
+
+    def invoke(f, lead, names, with_reverse):
+        bq, wq = scalar_arg(b, uf, spec["sb"]), scalar_arg(w, uf, spec["sw"])
+        if spec["call"] == "positional":
+            return f(*(list(lead) + [bq, wq, epo, norm, una] + ([reverse] if with_reverse else [])))
+        kw = {"ep": epo} if ep_given else {}
+        if spec["call"] == "defaults":
+            return f(*lead, bq, wq, **kw)
+        kw.update(norm=norm, time_units=una)
+        if with_reverse:
+            kw["reverse"] = reverse
+        if spec["call"] == "all_kw":
+            kw.update(dict(zip(names, lead)), binsize=bq, windowsize=wq)
+            return f(**kw)
+        return f(*lead, bq, wq, **kw)
+
+    def judge(op, f, lead, names, with_reverse, labels, pairs, rate_of, extra_key=None):
+        """pairs[label] = (reference train, target train) after every restriction; rate_of[label] = rate of the target"""
+        res.evaluations += 1
+        key = dict(key0, **(extra_key or {}))
+        try:
+            df = invoke(f, lead, names, with_reverse)
+            if hist == "twice":
+                df = invoke(f, lead, names, with_reverse)
+        except Exception as ex:
+            if invalid and isinstance(ex, CLEAN):
+                res.count("formsA_outside_signature(0-d array / upper-case unit)_rejected_cleanly")
+                return
+            res.violations.append({"key": dict(key, op=op, part="exception", exception=type(ex).__name__), "what": "raised " + type(ex).__name__ + ": " + str(ex)[:100], "input": inp})
+            return
+        if not labels:
+            if df.shape[1] != 0:
+                res.violations.append({"key": dict(key, op=op, part="columns"), "what": "no reference/target pair, but the frame has columns", "input": inp, "impl": [str(c_) for c_ in df.columns]})
+            return
+        expc, scales = {}, {}
+        for lab in labels:
+            r_, t_ = pairs[lab]
+            if not r_:
+                expc[lab] = "skip"
+            elif norm and not t_:
+                expc[lab] = None
+            else:
+                expc[lab] = o_auto(r_, b, w) if op == "compute_autocorrelogram" else o_hist(r_, t_, b, w)
+                scales[lab] = len(r_) * bsec * (rate_of[lab] if norm else 1.0)
+        check_frame(res, op, key, inp, df, labels, cen, expc, scales, False)
+
+    def eff_of(base):
+        return ep if ep is not None else base
+
+    eff = eff_of(gsup)
+    T = tot(eff) / 1e9
+    rm = {k: restrict(trains[k], eff) for k in keys}
+    rate = {k: (len(rm[k]) / T if T > 0 else float("nan")) for k in keys}
+    any_pairs = any(len(rm[k]) > 1 for k in keys)
+    # autocorrelogram
+    judge("compute_autocorrelogram", nap.compute_autocorrelogram, [grp], ["group"], False, list(keys), {k: (rm[k], rm[k]) for k in keys}, rate)
+    # crosscorrelogram of one group
+    labels = [((j, i) if reverse else (i, j)) for i, j in itertools.combinations(keys, 2)]
+    judge("compute_crosscorrelogram", nap.compute_crosscorrelogram, [grp], ["group"], True, labels, {(i, j): (rm[i], rm[j]) for i in keys for j in keys},
+          {(i, j): rate[j] for i in keys for j in keys}, {"reverse": reverse})
+    # crosscorrelogram of a pair of groups (tuple / list / the same live group twice / second group on a narrower support)
+    pair = spec["pair"]
+    res.count("formsA_pair=" + pair)
+    if pair == "same":
+        g1 = g2 = grp
+        k1 = k2 = keys
+        r1, r2, T2 = rm, rm, T
+    else:
+        k1, k2 = keys[:1], keys[1:]
+        s1 = gsup if spec["support"] == "default" or hist == "restrict" else sup
+        s2 = [tuple(x) for x in spec["sup2"]] if pair == "narrow2" else s1
+        sub = dict(spec, support="explicit")
+        g1 = fa_group(nap, sub, [m for m in members if m["key"] in k1], s1, keyform="int" if spec["keyform"] in ("list", "unsorted") else None)
+        g2 = fa_group(nap, sub, [m for m in members if m["key"] in k2], s2, keyform="int" if spec["keyform"] in ("list", "unsorted") else None)
+        e1, e2 = eff_of(s1), eff_of(s2)
+        byk = {m["key"]: m["ticks"] for m in members}
+        r1 = {k: restrict(restrict(byk[k], s1), e1) for k in k1}
+        r2 = {k: restrict(restrict(byk[k], s2), e2) for k in k2}
+        T2 = tot(e2) / 1e9
+    lead = [[g1, g2]] if pair == "list" else [(g1, g2)]
+    labels = [(i, j) for i in k1 for j in k2]
+    judge("compute_crosscorrelogram(pair of groups)", lambda *a, **k: nap.compute_crosscorrelogram(*a, **k), lead, ["group"], False, labels,
+          {(i, j): (r1[i], r2[j]) for i in k1 for j in k2}, {(i, j): (len(r2[j]) / T2 if T2 > 0 else float("nan")) for i in k1 for j in k2}, {"pair": pair})
+    # eventcorrelogram
+    evs = spec["event"]
+    if evs["mode"] == "member" and evs["member"] in keys:
+        evo, ev_sup, evt = grp[evs["member"]], gsup, trains[evs["member"]]
+    else:
+        es = {"explicit": sup, "narrow": [tuple(x) for x in evs["narrow"]], "default": None}.get(evs["mode"], sup)
+        evo = mk_series(nap, evs["cls"], evs["ticks"], evs["tform"], evs["vals"], evs["dform"], mk_ep(nap, es) if es is not None else None)
+        ev_sup = es if es is not None else support_ticks(evo)
+        evt = restrict(evs["ticks"], ev_sup)
+    eeff = eff_of(ev_sup)
+    rev = restrict(evt, eeff)
+    Te = tot(eeff) / 1e9
+    rme = {k: restrict(trains[k], eeff) for k in keys}
+    judge("compute_eventcorrelogram", nap.compute_eventcorrelogram, [grp, evo], ["group", "event"], False, list(keys), {k: (rev, rme[k]) for k in keys},
+          {k: (len(rme[k]) / Te if Te > 0 else float("nan")) for k in keys}, {"event": evs["mode"]})
+    res.case(("fA", spec["n"], str(spec["members"]), b, w, un, spec["call"], hist, spec["epform"]), nontrivial=any_pairs)
+
+
+# ------------------------------------------------------------------ family B: compute_perievent
+def fb_plan(tier, seed):
+    rng = random.Random(seed * 16 + 9)
+    plan = []
+    for c in range(420 if tier == "quick" else 3000):
+        lat = rng.choice(["dyadic", "dyadic", "seconds"])
+        step = 2 * U if lat == "dyadic" else 2 * SEC
+        half = step // 2
+        off = rng.choice([0, 0, -7 * half, -40 * half, BIG_OFF])
+        wins = [(half * a, half * b_) for a, b_ in ((2, 2), (1, 3), (4, 0), (0, 2), (3, 3), (6, 2), (1, 1), (2, 4))]
+        w0, w1 = rng.choice(wins)
+        un = rng.choice(["s", "s", "ms", "us"])
+        uf = dict(UNITS)[un]
+        pts = [off + i * step for i in range(6)]
+        halfpts = [off + i * half for i in range(-1, 12)]
+        tr = sorted(rng.choice(halfpts) for _ in range(rng.choice([0, 1, 1, 1, 2, 2, 2, 2, 3, 3])))
+        xcls = rng.choice(["Ts", "Tsd", "Tsd", "Tsd", "TsGroup"])
+
+        def one(k=None):
+            ticks = sorted(rng.choice(pts) for _ in range(rng.choice([0, 1, 2, 3, 4, 4, 5])))
+            if rng.random() < 0.5:      # samples exactly on the window edges of the reference times
+                ticks = sorted(ticks + [t for t in (r + rng.choice([-w0, w1]) for r in tr) if rng.random() < 0.7])
+            cls = rng.choice(["Ts", "Tsd"]) if xcls == "TsGroup" else xcls
+            dform = rng.choice(PE_DFORMS)
+            return {"key": k, "ticks": ticks, "cls": cls, "tform": pick_tform(rng, ticks), "dform": dform, "vals": gen_vals(rng, len(ticks), dform)}
+        keyform = rng.choice(["int", "unsorted", "str", "float", "npint", "list"])
+        if xcls == "TsGroup":
+            nmem = rng.choice([0, 1, 2, 3])
+            keys = list(range(nmem)) if keyform == "list" else sorted(rng.sample([0, 2, 4, 7, 10, 12, 21, 100], nmem))
+            xs = [one(k) for k in keys]
+            hist = rng.choice(["none", "none", "restrict", "getitem", "save_load", "twice"])
+            if hist == "getitem" and not keys:
+                hist = "none"
+        else:
+            xs = [one()]
+            hist = rng.choice(["none"] * 3 + ["restrict", "slice", "get", "arith", "npfunc", "save_load", "self_tref", "twice"])
+            if xcls == "Ts" and hist in ("arith", "npfunc"):
+                hist = "slice"
+        lo = min([off] + [t for m in xs for t in m["ticks"]])
+        hi = max([off] + [t for m in xs for t in m["ticks"]])
+        n0 = len(xs[0]["ticks"]) if xs else 0
+        a_ = rng.randint(0, max(0, n0 - 1))
+        spec = {"family": "B", "n": c, "lattice": lat, "off": off, "step": step, "xcls": xcls, "xs": xs, "keyform": keyform, "xsup": rng.choice(["wide", "wide", "default"]),
+                "sub": rng.sample([m["key"] for m in xs], max(1, len(xs) - 1)) if xcls == "TsGroup" and xs else [],
+                "tref": {"ticks": tr, "cls": rng.choice(["Ts", "Ts", "Tsd", "TsdFrame", "TsdTensor"]), "tform": pick_tform(rng, tr), "sup": rng.choice(["wide", "default"])},
+                "minmax": [w0, w1], "units": un, "mmform": pick_mmform(rng, w0, w1, uf), "call": rng.choice(["kw", "kw", "positional", "all_kw", "default_unit"]),
+                "hist": hist, "ep_h": [(lo, lo + 3 * half), (lo + 5 * half, hi + half)], "slice": [a_, rng.randint(a_, n0)], "get": [lo + half, hi - half]}
+        if spec["call"] == "default_unit" and un != "s":
+            spec["call"] = "kw"
+        spec["units_upper"] = spec["call"] != "default_unit" and rng.random() < 0.04
+        if hist not in ("none", "twice", "self_tref") and any(len(set(m["ticks"])) < 2 for m in xs):
+            spec["xsup"] = "wide"       # (a series with one distinct timestamp has an EMPTY default time support: every derived object would be empty)
+        plan.append(spec)
+    return plan
+
+
+def pe_read(pe, is_ts):
+    """[(ref_time, [(lag, value)])] of an aligned group"""
+    rt = [C.to_ns(v) for v in pe.get_info("ref_times").values] if len(pe) else []
+    got = []
+    for i, k in enumerate(pe.keys()):
+        m = pe[k]
+        lag = [C.to_ns(v) for v in m.t]
+        val = [None] * len(lag) if is_ts or not hasattr(m, "values") else [cv(v, nan="nan") for v in m.values]
+        got.append((rt[i] if i < len(rt) else None, list(zip(lag, val))))
+    return got
+
+
+def pe_judge(pe, ts, vs, is_ts, tr, w0, w1):
+    """None when the aligned group is what the statement says, else (part, what, impl, expected)"""
+    exp = [(r, [(l, None if is_ts else v) for l, v in ll]) for r, ll in o_perievent(ts, vs, tr, w0, w1)]
+    if list(pe.keys()) != list(range(len(tr))):
+        return ("keys", "group members are not numbered in reference order", [int(k) for k in pe.keys()], list(range(len(tr))))
+    got = pe_read(pe, is_ts)
+    if got != exp:
+        return ("lags", "member i is not the lags t - r_i (with values) of the samples with r_i - w0 <= t < r_i + w1, tagged r_i", got, exp)
+    if (w0 + w1 > 0) and support_ticks(pe) != [(-w0, w1)]:
+        return ("support", "time support of the aligned group is not [-w0, w1]", support_ticks(pe), [(-w0, w1)])
+    return None
+
+
+def apply_hist(nap, x, m, hist, spec):
+    """(object, ticks, values) after the history step"""
+    ts, vs = list(m["ticks"]), cvals(m["vals"], nan="nan")
+    if hist == "restrict":
+        ep = [tuple(e) for e in spec["ep_h"] if e[0] < e[1]]
+        if G.canonical(ep) and ep:
+            keep = [i for i, t in enumerate(ts) if any(s <= t <= e for s, e in ep)]
+            return x.restrict(mk_ep(nap, ep)), [ts[i] for i in keep], [vs[i] for i in keep]
+    elif hist == "slice":
+        a_, b_ = spec["slice"]
+        return x[a_:b_], ts[a_:b_], vs[a_:b_]
+    elif hist == "get":
+        lo, hi = spec["get"]
+        if lo <= hi:
+            keep = [i for i, t in enumerate(ts) if lo <= t <= hi]
+            return x.get(lo / 1e9, hi / 1e9), [ts[i] for i in keep], [vs[i] for i in keep]
+    elif hist == "arith":
+        return x * 1, ts, vs
+    elif hist == "npfunc":
+        return np.add(x, 0), ts, vs
+    elif hist == "save_load":
+        return save_load(nap, x), ts, vs
+    return x, ts, vs
+
+
+def offset_class(off, step):
+    return "0" if off == 0 else ("1e5s" if off == BIG_OFF else ("straddles_0" if off > -10 * step else "negative"))
+
+
+def fb_exec(nap, spec, res, mmform=None):
+    """returns the list of violations of this case (also appended to res.violations unless mmform overrides the form: attribution run)"""
+    un = spec["units"]
+    uf = dict(UNITS)[un]
+    w0, w1 = spec["minmax"]
+    form = mmform or spec["mmform"]
+    hist = spec["hist"]
+    wide = nap.IntervalSet(*WIDE)
+    out = []
+    attribution = mmform is not None
+    if not attribution:
+        for nm, val in (("lattice", spec["lattice"]), ("offset", offset_class(spec["off"], spec["step"])), ("input", spec["xcls"]), ("minmax_as", form), ("units", un), ("call", spec["call"]),
+                        ("history", hist), ("tref", spec["tref"]["cls"]), ("tref_times_as", spec["tref"]["tform"]), ("input_support", spec["xsup"]), ("n_tref", len(spec["tref"]["ticks"]))):
+            res.count("formsB_%s=%s" % (nm, val))
+        for m in spec["xs"]:
+            res.count("formsB_times_as=" + m["tform"])
+            res.count("formsB_data=" + (m["dform"] if m["cls"] == "Tsd" else "none(Ts)"))
+            if not m["ticks"]:
+                res.count("formsB_empty_series")
+        if spec["xcls"] == "TsGroup":
+            res.count("formsB_group_keys=" + spec["keyform"])
+            res.count("formsB_group_members=%d" % len(spec["xs"]))
+    xsup = wide if spec["xsup"] == "wide" else None
+    trs = spec["tref"]
+    tr = list(trs["ticks"])
+    key = {"op": "compute_perievent", "family": "forms", "units": un, "input": spec["xcls"], "minmax_form": form, "call": spec["call"], "hist": hist, "tref": trs["cls"]}
+    inp = {"spec": spec}
+    objs = [mk_series(nap, m["cls"], m["ticks"], m["tform"], m["vals"], m["dform"], xsup) for m in spec["xs"]]
+    if spec["xcls"] == "TsGroup":
+        pairs = [(keyrepr(m["key"], spec["keyform"]), o) for m, o in zip(spec["xs"], objs)]
+        if spec["keyform"] == "unsorted":
+            pairs = pairs[::-1]
+        x = nap.TsGroup([o for _, o in pairs] if spec["keyform"] == "list" else dict(pairs), time_support=wide)
+        eff = {m["key"]: (list(m["ticks"]), cvals(m["vals"], nan="nan"), m["cls"] == "Ts") for m in spec["xs"]}
+        if hist == "restrict":
+            ep = [tuple(e) for e in spec["ep_h"] if e[0] < e[1]]
+            if G.canonical(ep) and ep:
+                x = x.restrict(mk_ep(nap, ep))
+                eff = {k: ([t for t in ts if G.mem(t, ep)], [v for t, v in zip(ts, vs) if G.mem(t, ep)], it) for k, (ts, vs, it) in eff.items()}
+        elif hist == "getitem":
+            x = x[list(spec["sub"])]
+            eff = {k: eff[k] for k in sorted(spec["sub"])}
+        elif hist == "save_load":
+            x = save_load(nap, x)        # (the npz format of a TsGroup stores every member as float64 data, NaN for a Ts: the lags are judged)
+            eff = {k: (ts, vs, True) for k, (ts, vs, it) in eff.items()}
+    else:
+        x, ts, vs = apply_hist(nap, objs[0], spec["xs"][0], hist, spec)
+        eff = {None: (ts, vs, spec["xcls"] == "Ts")}
+    if hist == "self_tref":
+        tref, tr = x, list(eff[None][0])
+    else:
+        tref = mk_series(nap, trs["cls"], tr, trs["tform"], None, "float64", wide if trs["sup"] == "wide" else None)
+    mm = mm_arg(w0, w1, uf, form)
+    una = un.upper() if spec["units_upper"] else un
+    if spec["units_upper"] and not attribution:
+        res.count("formsB_units_in_upper_case")
+    try:
+        for _ in range(2 if hist == "twice" else 1):
+            if spec["call"] == "positional":
+                pe = nap.compute_perievent(x, tref, mm, una)
+            elif spec["call"] == "all_kw":
+                pe = nap.compute_perievent(timestamps=x, tref=tref, minmax=mm, time_unit=una)
+            elif spec["call"] == "default_unit":
+                pe = nap.compute_perievent(x, tref, mm)
+            else:
+                pe = nap.compute_perievent(x, tref, mm, time_unit=una)
+    except Exception as ex:
+        if (form in INVALID_MM or spec["units_upper"]) and isinstance(ex, CLEAN):
+            if not attribution:
+                res.count("formsB_outside_signature(list / ndarray / 0-d minmax, upper-case unit)_rejected_cleanly")
+                res.evaluations += 1
+            return out
+        out.append({"key": dict(key, part="exception", exception=type(ex).__name__), "what": "raised " + type(ex).__name__ + ": " + str(ex)[:100], "input": inp})
+        pe = None
+    if pe is not None:
+        if spec["xcls"] == "TsGroup":
+            if not isinstance(pe, dict) or list(pe.keys()) != sorted(eff):
+                out.append({"key": dict(key, part="group_keys"), "what": "TsGroup input: the result is not a dict keyed by the members in order", "input": inp,
+                            "impl": [str(k) for k in pe.keys()] if isinstance(pe, dict) else str(type(pe)), "expected": sorted(eff)})
+            else:
+                for k in sorted(eff):
+                    ts, vs, it = eff[k]
+                    bad = pe_judge(pe[k], ts, vs, it, tr, w0, w1)
+                    if bad:
+                        out.append({"key": dict(key, part=bad[0]), "what": "TsGroup member %s: %s" % (k, bad[1]), "input": inp, "impl": bad[2], "expected": bad[3]})
+                        break
+        else:
+            ts, vs, it = eff[None]
+            bad = pe_judge(pe, ts, vs, it, tr, w0, w1)
+            if bad:
+                out.append({"key": dict(key, part=bad[0]), "what": bad[1], "input": inp, "impl": bad[2], "expected": bad[3]})
+    if attribution:
+        return out
+    out = attribute_minmax(out, form, un, lambda f: fb_exec(nap, spec, res, mmform=f))
+    res.violations.extend(out)
+    cut = any(0 < len([t for t in ts if r - w0 <= t < r + w1]) < len(ts) for ts, _, _ in eff.values() for r in tr)
+    res.case(("fB", spec["n"], str(spec["xs"]), tuple(tr), w0, w1, un, form, hist), nontrivial=cut)
+    return out
+
+
+def attribute_minmax(viol, form, un, rerun):
+    """a failing case whose minmax is a tuple of unsigned numpy integers / np.float16: run the same case with the plain float tuple; when that
+    one satisfies the statement the violation is attributed to the form (precise key, one boolean per trigger), otherwise the key stays generic"""
+    if not viol or form not in UNSIGNED_MM + ("tuple_np.float16",):
+        return viol
+    if rerun("tuple"):
+        return viol
+    trig = "minmax_tuple_of_numpy_unsigned_ints" if form in UNSIGNED_MM else "minmax_tuple_of_numpy_float16"
+    return [dict(v, key={"op": v["key"]["op"], "part": v["key"]["part"], trig: True, "units": un}) for v in viol]
+
+
+# ------------------------------------------------------------------ family C: compute_perievent_continuous
+def fc_plan(tier, seed):
+    rng = random.Random(seed * 16 + 11)
+    plan = []
+    while len(plan) < (420 if tier == "quick" else 3000):
+        lat = rng.choice(["dyadic", "dyadic", "seconds"])
+        step = 2 * U if lat == "dyadic" else 2 * SEC
+        half = step // 2
+        off = rng.choice([0, 0, -7 * half, -60 * half, BIG_OFF])
+        n = rng.randint(2, 14)
+        ts = [off + i * step for i in range(n)]
+        m = rng.randint(1, min(3, n))
+        cuts = sorted(rng.sample(range(0, 2 * n + 1), 2 * m))
+        ep = [(off + cuts[2 * i] * half, off + cuts[2 * i + 1] * half) for i in range(m)]
+        if not G.canonical(ep):
+            continue
+        mode = rng.choice(["ep", "ep", "ep", "default", "support", "wide"])
+        hist = rng.choice(["none"] * 4 + ["restrict", "slice", "arith", "npfunc", "save_load", "self_tref", "twice"])
+        if hist == "restrict":
+            mode = "support"                          # the epochs become the time support through x.restrict(ep): the samples between them are dropped by the library
+        if mode in ("default", "wide"):
+            ep = None
+        elif (mode == "support" and hist != "restrict") or (mode == "ep" and rng.random() < 0.4):
+            ts = [t for t in ts if G.mem(t, ep)]      # a recording with holes: no sample between the epochs
+        if not ts or (ep and not [t for t in ts if G.mem(t, ep)] and mode == "support"):
+            continue                                  # (an empty series does not keep the time support it is given)
+        if mode == "ep" and hist == "none" and rng.random() < 0.08:
+            ts = rng.choice([[], ts[:1], [ts[0], ts[0]]])      # fewer than two sample times
+        empty_ep = mode == "ep" and rng.random() < 0.05
+        if empty_ep:
+            ep = []                                            # an empty IntervalSet passed as ep=: no reference time is inside the epochs
+        if mode == "default" and len(ts) < 2:
+            continue
+        tr = sorted(off + rng.randrange(-1, 2 * n + 1) * half for _ in range(rng.choice([0, 1, 2, 3, 4, 5])))
+        k0, k1 = rng.randint(0, 5), rng.randint(0, 5)
+        w0, w1 = k0 * step + rng.choice([0, half]), k1 * step + rng.choice([0, half])
+        if rng.random() < 0.3:
+            w1 = w0
+        if w0 + w1 == 0:
+            w0 = w1 = step
+        un = rng.choice(["s", "s", "ms", "us"])
+        uf = dict(UNITS)[un]
+        dform = rng.choice(PC_DFORMS)
+        cont = "Tsd" if dform in SMALL_DFORMS else rng.choice(["Tsd", "Tsd", "TsdFrame", "TsdTensor"])
+        a_ = rng.randint(0, max(0, len(ts) - 1))
+        spec = {"family": "C", "n": len(plan), "lattice": lat, "off": off, "step": step, "ts": ts, "dform": dform, "vals": gen_vals(rng, len(ts), dform), "container": cont,
+                "tform": pick_tform(rng, ts), "cols": rng.choice([None, ["b", "a"], [7, 3], [1.5, 0.5]]) if cont == "TsdFrame" else None,
+                "ep": ep, "mode": mode, "epform": "empty" if empty_ep else (rng.choice(epforms_for(ep)) if ep else rng.choice(["omitted", "none"])),
+                "tref": {"ticks": tr, "cls": rng.choice(["Ts", "Ts", "Tsd", "TsdFrame", "TsdTensor"]), "tform": pick_tform(rng, tr)},
+                "minmax": [w0, w1], "units": un, "mmform": pick_mmform(rng, w0, w1, uf), "call": rng.choice(["kw", "kw", "positional", "all_kw", "default_unit"]),
+                "hist": hist, "slice": [a_, rng.randint(a_ + 1, max(a_ + 1, len(ts)))]}
+        if spec["call"] == "default_unit" and un != "s":
+            spec["call"] = "kw"
+        spec["units_upper"] = spec["call"] != "default_unit" and rng.random() < 0.04
+        plan.append(spec)
+    return plan
+
+
+def fc_exec(nap, spec, res, mmform=None):
+    un = spec["units"]
+    uf = dict(UNITS)[un]
+    w0, w1 = spec["minmax"]
+    form = mmform or spec["mmform"]
+    hist, mode, cont = spec["hist"], spec["mode"], spec["container"]
+    attribution = mmform is not None
+    ts, vs = list(spec["ts"]), cvals(spec["vals"])
+    ep = [tuple(e) for e in spec["ep"]] if spec["ep"] is not None else None
+    trs = spec["tref"]
+    tr = list(trs["ticks"])
+    out = []
+    if not attribution:
+        for nm, val in (("lattice", spec["lattice"]), ("offset", offset_class(spec["off"], spec["step"])), ("input", cont), ("data", spec["dform"]), ("times_as", spec["tform"]),
+                        ("minmax_as", form), ("units", un), ("call", spec["call"]), ("history", hist), ("mode", mode), ("ep_as", spec["epform"]), ("tref", trs["cls"]),
+                        ("tref_times_as", trs["tform"]), ("n_tref", len(tr)), ("n_samples", len(ts) if len(ts) < 2 else "2+")):
+            res.count("formsC_%s=%s" % (nm, val))
+        if spec["cols"]:
+            res.count("formsC_frame_columns=%s" % type(spec["cols"][0]).__name__)
+    lo_t, hi_t = min(ts + [spec["off"]]), max(ts + [spec["off"]])
+    wide_t = [(lo_t - SEC, hi_t + SEC)]
+    # the object and its time support
+    if mode == "support" and hist != "restrict":
+        supo, xsup = ep_arg(nap, ep, "plain"), ep
+    elif mode == "default":
+        supo, xsup = None, [(ts[0], ts[-1])]
+    else:
+        supo, xsup = mk_ep(nap, wide_t), wide_t
+    x = mk_series(nap, cont, ts, spec["tform"], spec["vals"], spec["dform"], supo, spec["cols"])
+    if mode == "support":
+        if hist == "restrict":
+            x, xsup = x.restrict(mk_ep(nap, ep)), ep
+        keep = [i for i, t in enumerate(ts) if G.mem(t, ep)]
+        ts, vs = [ts[i] for i in keep], [vs[i] for i in keep]
+    if hist == "slice":
+        a_, b_ = spec["slice"]
+        x, ts, vs = x[a_:b_], ts[a_:b_], vs[a_:b_]
+    elif hist == "arith":
+        x = x * 1
+    elif hist == "npfunc":
+        x = np.add(x, 0)
+    elif hist == "save_load":
+        x = save_load(nap, x)
+    eff = ep if mode == "ep" else xsup
+    if hist == "self_tref":
+        tref, tr = x, list(ts)
+    else:
+        tref = mk_series(nap, trs["cls"], tr, trs["tform"], None, "float64", nap.IntervalSet(*WIDE))
+    key = {"op": "compute_perievent_continuous", "family": "forms", "units": un, "input": cont, "data": spec["dform"], "minmax_form": form, "call": spec["call"], "hist": hist,
+           "mode": mode, "tref": trs["cls"]}
+    inp = {"spec": spec}
+    epo = (nap.IntervalSet([], []) if spec["epform"] == "empty" else ep_arg(nap, ep, spec["epform"])) if mode == "ep" else None
+    ep_given = mode == "ep" or spec["epform"] == "none"
+    mm = mm_arg(w0, w1, uf, form)
+    una = un.upper() if spec["units_upper"] else un
+    if spec["units_upper"] and not attribution:
+        res.count("formsC_units_in_upper_case")
+    pc = None
+    try:
+        for _ in range(2 if hist == "twice" else 1):
+            if spec["call"] == "positional":
+                pc = nap.compute_perievent_continuous(x, tref, mm, epo, una)
+            elif spec["call"] == "all_kw":
+                pc = nap.compute_perievent_continuous(timeseries=x, tref=tref, minmax=mm, time_unit=una, **({"ep": epo} if ep_given else {}))
+            elif spec["call"] == "default_unit":
+                pc = nap.compute_perievent_continuous(x, tref, mm, **({"ep": epo} if ep_given else {}))
+            else:
+                pc = nap.compute_perievent_continuous(x, tref, mm, time_unit=una, **({"ep": epo} if ep_given else {}))
+    except Exception as ex:
+        if (form in INVALID_MM or spec["units_upper"]) and isinstance(ex, CLEAN):
+            if not attribution:
+                res.count("formsC_outside_signature(list / ndarray / 0-d minmax, upper-case unit)_rejected_cleanly")
+                res.evaluations += 1
+            return out
+        out.append({"key": dict(key, part="exception", exception=type(ex).__name__), "what": "raised " + type(ex).__name__ + ": " + str(ex)[:100], "input": inp})
+    if pc is not None:
+        got_t = [C.to_ns(v) for v in pc.t]
+        arr = cont_planes(np.asarray(pc.values), cont)
+        if arr is None:
+            out.append({"key": dict(key, part="frame_columns"), "what": cont + " input: the data columns are not aligned identically / wrong shape", "input": inp,
+                        "impl": list(np.asarray(pc.values).shape)})
+        else:
+            got_c = [[cv(v) for v in arr[:, j]] for j in range(arr.shape[1])]
+            bad = cont_verdict(ts, vs, tr, eff, w0, w1, got_t, got_c)
+            if bad is not None:
+                out.append({"key": dict(key, part=bad[0]), "what": bad[1], "input": inp, "impl": [got_t, got_c], "expected": bad[2]})
+    if attribution:
+        return out
+    out = attribute_minmax(out, form, un, lambda f: fc_exec(nap, spec, res, mmform=f))
+    res.violations.extend(out)
+    inside = [r for r in tr if G.mem(r, eff)]
+    res.case(("fC", spec["n"], tuple(ts), tuple(tr), str(eff), w0, w1, un, form, hist, cont, spec["dform"]), nontrivial=bool(inside) and len(ts) > 1)
+    return out
+
+
+def run_forms(res, tier, seed, nap):
+    n = {}
+    for fam, plan, ex in (("A:correlograms", fa_plan, fa_exec), ("B:compute_perievent", fb_plan, fb_exec), ("C:compute_perievent_continuous", fc_plan, fc_exec)):
+        specs = plan(tier, seed)
+        n[fam] = len(specs)
+        for spec in specs:
+            ex(nap, spec, res)
+        if specs:
+            res.sample({"op": "argument forms " + fam, "spec": specs[0]}, limit=8)
+    res.extra["argument_form_cases"] = n
+
+
 def run(res, tier, seed):
     nap, CG, PF = _nap()
     warnings.simplefilter("ignore")
@@ -931,6 +1846,18 @@ def run(res, tier, seed):
                 "no sample kept between the epochs), + series whose first two samples do NOT give the sampling step (a lone sample in the first epoch, leading samples outside the epochs at another spacing, a duplicated first sample) "
                 "and series of 0/1 sample times; Tsd, TsdFrame and TsdTensor; _perievent_continuous on irregular sampling with duplicate sample times; "
                 "(5) probes: ep=None passed explicitly to the four correlogram entry points, the pair of groups passed as a list. "
+                "(6) ARGUMENT FORMS, three seeded families of JSON-able specs on exact lattices (dyadic 2^-9 s, or whole seconds for the integer forms), judged by the same statement oracles: "
+                "[dtype of the data] Tsd members / events / aligned series hold float64, float32, int64/32/16/8, uint8/16/64, bool, Python-list data, NaN / +inf / -inf, zeros, all-equal values, integers beyond 2^53 and beyond int64 "
+                "(correlograms must ignore them, compute_perievent must carry them unchanged, compute_perievent_continuous must place them; TsdFrame/TsdTensor planes base+1000q); "
+                "[form of time arguments and scalars] every timestamp array as ndarray, list, tuple, pandas Series / Index (Series-with-index for Tsd, DataFrame for TsdFrame), another object's TsIndex, another object's .t, float32, "
+                "int64/32/16 and uint8/16/32/64 arrays, Python-int lists, time_units ms/us (float and int); binsize / windowsize as float, np.float64, np.float32, int, np.int64/32, np.uint16, 0-d array; minmax as tuple, negative-first tuple, scalar, "
+                "tuples and scalars of Python ints, np.float64/32/16, np.int64/32, np.uint8/64, mixed (int, float), and list / ndarray / 0-d array (outside the signature: a clean TypeError/ValueError/RuntimeError or the statement); "
+                "ep as plain IntervalSet, with metadata, from lists, from int64 / uint64 arrays, from a DataFrame, in ms, empty, omitted, or None passed explicitly; "
+                "[positional / keyword / default] every entry point called with keywords, fully positionally, fully by keyword and with norm / reverse / time_units / time_unit left at their defaults; norm x reverse x ep x units combined; time unit in upper case (clean exception or the statement); "
+                "[units] s / ms / us for the same instants; [time placement] lattice origin at 0, straddling 0, all-negative, 1e5 s; samples forced onto both window edges; "
+                "[degenerate] empty TsGroup, one member, empty members, empty series, empty tref, empty ep, one sample, duplicated timestamps, single-timestamp series with the (empty) default time support; keys unsorted / multi-digit strings / floats / numpy ints / a list of members; "
+                "[classes] Ts and Tsd members and events, Ts/Tsd/TsGroup inputs, Ts/Tsd/TsdFrame/TsdTensor reference times, Tsd/TsdFrame(string, integer, float column labels in non-sorted order)/TsdTensor series, pair of groups as tuple / list / the same live group twice / second group on a narrower support, the event being a member of the group, group time support explicit / default (union) / bypass_check=True / with metadata; "
+                "[histories] restrict, group[[keys]] in non-sorted order, slice, get, x*1, np.add(x, 0), save + load_file, set_info, the same call twice on one live object, the series used as its own reference times. "
                 "`exhaustive` refers to spaces (1) and (3) in the thorough tier; (2) and (4) are seeded samples of their products. Each compared with the extracted model (where its hypotheses hold) AND the brute-force statement. non-trivial = at least one pair in a bin / window cuts the data / a window truncated by an epoch edge")
     res.exhaustive = tier == "thorough"
     run_kernel(res, tier, rng, CG)
@@ -938,6 +1865,7 @@ def run(res, tier, seed):
     run_perievent(res, tier, rng, nap)
     run_continuous(res, tier, rng, nap, PF)
     run_continuous_kernel(res, tier, rng, PF)
+    run_forms(res, tier, seed, nap)
 
 
 def search(res, seed):
@@ -955,6 +1883,13 @@ def replay(payload):
     op = (v.get("key") or {}).get("op") or v.get("op") or ""
     print("op:", op)
     print("input:", inp)
+    if "spec" in inp:
+        spec, r = inp["spec"], C.Result()
+        {"A": fa_exec, "B": fb_exec, "C": fc_exec}[spec["family"]](nap, spec, r)
+        for x in r.violations:
+            print("VIOLATION", x["key"], "\n ", x["what"], "\n  impl    ", x.get("impl"), "\n  expected", x.get("expected"))
+        print("%d violation(s) on replay" % len(r.violations))
+        return 1 if r.violations else 0
     if "t1" in inp:
         t1, t2, b, w = inp["t1"], inp["t2"], inp["binsize"], inp["windowsize"]
         Cv, Bv = CG._cross_correlogram(G.arr(t1), G.arr(t2), b / 1e9, w / 1e9)
